@@ -4,6 +4,7 @@ import (
 	"bufio"
 	"bytes"
 	"errors"
+	"fmt"
 	"io"
 	"regexp"
 	"strings"
@@ -77,7 +78,13 @@ func (ye *yamlEncoder) PrintLeadingContent(writer io.Writer, content string) err
 	return nil
 }
 
-func (ye *yamlEncoder) Encode(writer io.Writer, node *CandidateNode) error {
+func (ye *yamlEncoder) Encode(writer io.Writer, node *CandidateNode) (encodeError error) {
+	// the yaml emitter panics on text it cannot write (e.g. a comment that is not valid UTF-8)
+	defer func() {
+		if r := recover(); r != nil {
+			encodeError = fmt.Errorf("cannot encode as yaml: %v", r)
+		}
+	}()
 	log.Debug("encoderYaml - going to print %v", NodeToString(node))
 	if node.Kind == ScalarNode && ye.prefs.UnwrapScalar {
 		valueToPrint := node.Value
